@@ -199,7 +199,8 @@ def _replay_part(pid, tier, n_sched, n_free, race, seed, t0, model, sim_cfg, for
                         closed = True
                         if e["t"] == "R":
                             floors["close_by_reader"] += 1
-    need = ("wc_timeout", "wc_closesent", "transport_fault", "write_after_close_attempt") if model else (("transport_fault",) if force_fault else ("ctl_between_fragments",))
+    # (the auxiliary replay parts of C02 / C08 have no mandatory floor: what they observed is recorded in the coverage)
+    need = ("wc_timeout", "wc_closesent", "transport_fault", "write_after_close_attempt") if model else (("transport_fault",) if force_fault else ())
     missing = [k for k, v in floors.items() if v == 0 and k in need]
     if missing:
         raise core.Infra("coverage floor not met in the replayed schedules (never observed): %s" % ", ".join(missing))
